@@ -107,6 +107,8 @@ def signature(c, f):
     stores = {n.id for n in _ast.walk(tree) if isinstance(n, _ast.Name) and isinstance(n.ctx, (_ast.Store, _ast.Del))}
     if stores & set(BUILTINS_RELIED_ON) and f.get("kind") in ("exception", "bindings"):
         return "program rebinds a builtin name the inserted code relies on (slice / BaseException / NameError)"
+    if f.get("kind") == "stdout" and any(isinstance(n, _ast.FunctionDef) and n.name == "__del__" for n in _ast.walk(tree)):
+        return "a finalizer (__del__) of the value of a module-level expression statement runs one statement late when after_stmt is subscribed"
     if f.get("kind") == "compile" and "declaration" in f.get("what", ""):
         # a global/nonlocal statement that is not a direct statement of the function body
         for fn in _ast.walk(tree):
@@ -122,8 +124,9 @@ def run(ctx, model_ok, deferred=False, only_deferred=False, n_quick=120, extra_c
     rng = ctx.rng
     n = n_quick if ctx.tier == "quick" else n_quick * 12
     cases = list(extra_cases or []) + ([dict(a) for a in ADVERSARIAL] if adversarial else [])
-    for rp in getattr(ctx, "known_replays", []):
-        cases.append(dict(rp))
+    for rp in getattr(ctx, "known_replays", []) + getattr(ctx, "fixed_replays", []):
+        if "src" in rp and "events" in rp and rp.get("frag") is None:
+            cases.append(dict(rp))
     while len(cases) < n:
         cases.append(gen_case(rng, deferred, only_deferred))
     impl = run_impl(cases)
